@@ -91,8 +91,8 @@ def gen_case(rng, length):
         variant = rng.choice(VARIANTS)
         if variant == "main" and ns != 0:
             variant = "plain"
-        k = rng.choices(["add", "radd", "get", "exists", "body", "resolve", "commit", "reopen"],
-                        [5, 1.5, 5, 2, 2, 2, 0.5, 0.7])[0]
+        k = rng.choices(["add", "radd", "get", "exists", "body", "resolve", "commit", "reopen", "visit"],
+                        [5, 1.5, 5, 2, 2, 2, 0.5, 0.7, 0.4])[0]
         if k == "add":
             v = rng.choice(["plain", "prefixed"]) if ns != 0 else rng.choice(["plain", "main"])
             title = spell(rng, base, ns, v).replace("_", " ")
@@ -150,7 +150,8 @@ def coq_op(op):
         return "SBody %s (Some %s)" % (cstr(op[1]), cZ(op[2]))
     if k == "resolve":
         return "SResolve %s (Some %s)" % (cstr(op[1]), cZ(op[2]))
-    return "SCommit" if k == "commit" else "SReopen"
+    # "visit": commit, then another context opens the file, reads and is closed with close_db_conn(): nothing changes
+    return "SCommit" if k in ("commit", "visit") else "SReopen"
 
 
 def coq_out(op, out):
